@@ -624,6 +624,13 @@ def join_states(an, a, b, frame, bb, widen=False):
                 for k in set(x[2]) ^ set(y[2]):
                     el[k] = TOP
             return ('array', x[1], el, d, nm_, ety_)
+        if kx in ('closure', 'anyof') and ky in ('closure', 'anyof'):
+            alts = list(x[1]) if kx == 'anyof' else [x]
+            for z in (list(y[1]) if ky == 'anyof' else [y]):
+                if z not in alts:
+                    alts.append(z)
+            if len(alts) <= 8:
+                return ('anyof', tuple(alts))
         if kx == ky == 'iter' and x[1] == y[1]:
             return x
         if kx == ky == 'hvec' and x[1] == y[1]:
@@ -948,7 +955,17 @@ class Analyzer:
                 for l_ in lins:
                     if isinstance(l_, Lin):
                         sy0.update(l_.co)
-                o.bad_entries[ent] = {'context': frame.chain()[:6], 'why': detail, 'entry': ent, 'syms': sorted(sy0)}
+                # transitive provenance through freshly created symbols
+                deps = getattr(self, 'sym_deps', {})
+                work = list(sy0)
+                seen_ = set(sy0)
+                while work:
+                    x_ = work.pop()
+                    for y_ in deps.get(x_, ()):
+                        if y_ not in seen_:
+                            seen_.add(y_)
+                            work.append(y_)
+                o.bad_entries[ent] = {'context': frame.chain()[:6], 'why': detail, 'entry': ent, 'syms': sorted(seen_)}
             if o.detail is None:
                 sy = set()
                 for l_ in lins:
